@@ -57,6 +57,10 @@ _MORE = {
  "C12": dict(cat="exploration", tech="exhaustive enumeration of per-call-site worker-count vectors (single and pairwise deviations, all uniform values 1..16) on the real code under a deterministic schedule",
    text="Every runtime.GOMAXPROCS(0) call site in the current tree is turned into a hook by the instrumenter; for 12 (picture, options) cases above every parallel threshold the check runs the all-ones vector, every single site at {2,3,5,16}, every pair of sites at {2,5} and every uniform vector 2..16, under the controlled scheduler's default schedule with pools that never reuse, so the output is a function of the worker vector alone; bytes/pixels must equal the all-ones result.",
    note="GOMAXPROCS above 16, and pictures/options outside the case list, are not covered; schedule and history dependence are C10's and C11's subjects.", ref="3/C12"),
+
+ "C06": dict(cat="exploration", tech="deviation-bounded exhaustive enumeration of lossy options x pictures x {serial, parallel} on the real encoder with an overlay hook exposing its reconstruction; independent decoder without loop filter as oracle",
+   text="10 pictures x lossy EncoderOptions with at most 2 (thorough 3) fields away from the defaults (16 fields) x worker count {1, 3 under the deterministic default schedule}, plus every ordered pair of Methods on a recycled encoder: the reconstruction planes the encoder holds when EncodeFrame returns (captured by an overlay wrapper generated at check time) must equal bit-exactly what the vendored decoder reconstructs before in-loop deblocking, and webp.Decode's planes when the filter level is 0; decoded size equals source size.",
+   note="Reads VP8Encoder.yPlane/uPlane/vPlane through a generated accessor (skipped and reported, never an alarm, if those fields disappear); 3-way option interactions only in thorough.", ref="3/C06"),
 }
 CHECKS.update(_MORE)
 NA = {}
